@@ -381,7 +381,17 @@ def check(ctx, impl, label, safe, api, j, result, before, after) -> None:
         check_members(ctx, prop, base, safe, ix, j, stubs, parsed, files)
     if prop == "C10":
         check_layout(ctx, base, safe, j, stubs, outside, parsed, files)
-    # C11 is not judged on synthetic API objects (they use type variables and class names the analyser would never
+    if prop == "C11":
+        # the one part of C11 that is judged on synthetic API objects: every class of another library that the generator
+        # registered (and therefore imports somewhere) is declared by a placeholder stub of its python module
+        have = {(sf.pymodule, d.pyname) for sf, _ in parsed.values() for d in sf.decls}
+        for cls in outside:
+            mod, _, name = cls.rpartition(".")
+            if mod and (mod, name) not in have:
+                ctx.oracle_failure("C11", f"class {cls!r} of another library is imported but no placeholder stub declares it",
+                                   {**base, "class": cls, "safe": safe,
+                                    "placeholder_files": sorted(pth for pth, (sf, _) in parsed.items() if sf.pymodule == mod)})
+    # C11 is otherwise not judged on synthetic API objects (they use type variables and class names the analyser would never
     # produce in those positions); S-B contributes the byte-exact correspondence of the import bookkeeping, the
     # property's predicate is evaluated by S-E on real packages (tie/oracles_e2e.check_refs)
 
